@@ -199,17 +199,28 @@ func ReceiveSession(ctx context.Context, rw io.ReadWriter, state SessionState, n
 
 func setDeadline(ctx context.Context, conn net.Conn) context.CancelFunc {
 	cancelCtx, cancel := context.WithCancel(context.Background())
+	done := make(chan struct{})
 	go func() {
+		defer close(done)
 		select {
 		case <-ctx.Done():
+			// Leave the deadline in the past until negotiation has returned: if it
+			// were cleared right away only an I/O call that happens to be pending
+			// at this instant would fail, and a context that ends between two I/O
+			// calls would never be noticed.
 			/* #nosec */
 			conn.SetDeadline(aLongTimeAgo)
-			/* #nosec */
-			conn.SetDeadline(time.Time{})
 		case <-cancelCtx.Done():
 		}
 	}()
-	return cancel
+	return func() {
+		cancel()
+		<-done
+		if ctx.Err() != nil {
+			/* #nosec */
+			conn.SetDeadline(time.Time{})
+		}
+	}
 }
 
 func setWriteDeadline(ctx context.Context, conn net.Conn) context.CancelFunc {
